@@ -498,9 +498,17 @@ class Framer(tasking.Tasker):
             console.profuse("    False, empty enters\n")
             return False
 
+        claimed = set()  # original auxes claimed by frames in enters
         for frame in enters:
             if not frame.checkEnter(exits=exits):
                 return False
+            for aux in frame.auxes:  # original aux may only have one main frame at a time
+                if aux.original:
+                    if aux in claimed:
+                        console.concise("    False. Invalid aux '{0}' in use by more than"
+                                        " one frame of '{1}'\n".format(aux.name, self.name))
+                        return False
+                    claimed.add(aux)
         console.profuse("    True all {0}\n".format(self.name))
         return True
 
